@@ -41,7 +41,9 @@ def eval_case(case):
         k = len(x["short"]) + 2
         toks = toks[:k] + list(ins) + toks[k:]
     bpver = "".join(digits(rng, 1, False) if t == "D" else t for t in x["bpversion"]) if x["layered"] else None
-    date = "20" + digits(rng, 6, False)
+    # any 8 digits: dates of this century, of the last, and texts of 8 digits that begin with noughts
+    date = ["20", "19", "0", "00", "20", "9"][case.get("rseed", 0) % 6]
+    date += digits(rng, 8 - len(date), False)
     respin = int(digits(rng, x["rlen"]))
     if x["rlen"] == 8 and case.get("worst"):
         respin = int("9" * 8)
